@@ -24,7 +24,7 @@ def step(w, prev, cur, op, res):
         if j['state'] in ('Running', 'Creating'):
             if j['attempt_id'] is None or (k[0], k[1], j['attempt_id']) not in cur.attempts:
                 return [('running-without-attempt', 'a running job has exactly one current attempt', f'job {k} is {j["state"]} with attempt_id {j["attempt_id"]}')]
-    if op[0] in ('complete', 'started') and res.get('ok'):
+    if op[0] in ('complete', 'started', 'unschedule') and res.get('ok') and res.get('job') is not None:
         k = tuple(res['job'])
         p, c = prev.jobs.get(k), cur.jobs.get(k)
         if p is not None and c is not None and p['attempt_id'] is not None and p['attempt_id'] != res['attempt_id'] and p['state'] != c['state']:
